@@ -75,11 +75,22 @@ def packet_signature(text, version, extra=""):
     return {"kind": kind, "version": version, "fields": ",".join(keys), "clause": extra}
 
 
+def in_encode_domain(pkt, v):
+    """packets the client can be made to emit: a CONNECT is built by the engine from the connect options, which never pairs a
+    zero-byte 3.1.1 client identifier with CleanSession = 0 (checked on the engine's own CONNECTs by the C02 engine walks)"""
+    kind, kv = parse_kv(pkt)
+    if kind == "connect" and v == 311 and kv_get(kv, "cid", "x") == "x" and kv_get(kv, "clean", "0") != "1":
+        return False
+    return True
+
+
 def encode_requests(rng, n_packets, allow_over):
     cases = []
     for i in range(n_packets):
         pkt = G.gen_outbound(rng, allow_over=allow_over)
         v = rng.choice([5, 311])
+        if not in_encode_domain(pkt, v):
+            pkt = pkt.replace(" clean=0", " clean=1")
         kind = pkt.split(" ")[0]
         res = ""
         if kind == "publish" and v == 5 and rng.chance(0.5):
@@ -204,7 +215,11 @@ def suite_encode(report, tier, seed, prop="C02"):
         if not ok:
             mon_spec_ok = False
 
+            def repair(t, c=c):
+                return t if in_encode_domain(t, c["v"]) else t + " clean=1"
+
             def still_fails(t, c=c):
+                t = repair(t)
                 r = harness_batch([f"encode v={c['v']}{c['res']} caps=4096 | {t}"])[0]
                 f2, _ = resp_fields(r)
                 if f2.get("res") != "ok":
@@ -217,7 +232,7 @@ def suite_encode(report, tier, seed, prop="C02"):
                     return False
                 return not (a.get("n") == "1" and a.get("left") == "0" and len(sa) == 1 and spec_view(sa[0]) == spec_view(sb[0]))
 
-            small = shrink_packet(c["pkt"], still_fails)
+            small = repair(shrink_packet(c["pkt"], still_fails))
             report.add_finding(Finding(prop, "mon:spec-decode", packet_signature(small, c["v"], "reference-decoder-disagrees"),
                                        "an independent spec decoder does not recover the supplied content from the emitted bytes",
                                        [f"encode v={c['v']}{c['res']} caps=4096 | {small}", "# spec.decode: " + dec[:400], "# expected:    " + canon[:400]]))
